@@ -1610,7 +1610,7 @@ func execWorld(out *sink, thorough bool, origin string, sh shape, w *World, defe
 				out.Count(fmt.Sprintf("first-reconcile-writes:%d", x))
 			}
 		}
-		out.Add(in.Wrap(term), label)
+		out.Add(in.Wrap("CaseW "+term), label)
 		out.Count("check:" + check)
 		out.Count("shape:" + sh.name)
 		out.Count("origin:" + origin)
@@ -1630,7 +1630,7 @@ func execWorld(out *sink, thorough bool, origin string, sh shape, w *World, defe
 
 // Run generates n cases (two per world) from seed and writes them under dir.
 func Run(dir string, seed uint64, n int, tier string) error {
-	out := u.NewOut(dir, "C18", "KaiV.Run.C18", "case", 20)
+	out := u.NewOut(dir, "C18", "KaiV.Run.C18", "tcase", 20)
 	out.Flags = true // observation flag 100 (Run/C18.v case_flags)
 	em := &emitter{out: out, thorough: tier == "thorough"}
 	root := u.NewRng(seed)
@@ -1761,9 +1761,17 @@ func Run(dir string, seed uint64, n int, tier string) error {
 		em.emitWorld(cr, "corpus-history", shapes[0], wb, "")
 		em.extra = nil
 	}
+	// API faults on the owner GETs: the scenario of seeded/C18-4 (README orders, transient answers, grant / revoke) and
+	// the same workload in two namespaces for known kinds and longer chains
+	faultCorpus(em, cr.Fork(77))
 	defects := []string{"uid-mismatch", "missing-owner", "two-owners-above", "forbidden-top", "forbidden-direct", "user-annotation", "two-owner-refs"}
 	for i := 0; em.planned < n; i++ {
 		r := root.Fork(uint64(i))
+		if i%8 == 5 { // fault stream
+			fw, runs := genFaultWorld(r)
+			em.emitFaultWorld("faults", fw, runs)
+			continue
+		}
 		sh := shapes[i%len(shapes)]
 		if r.Chance(1, 3) {
 			sh = u.Pick(r, shapes)
@@ -1789,6 +1797,6 @@ func Run(dir string, seed uint64, n int, tier string) error {
 		em.emitWorld(r, origin, sh, w, defect)
 	}
 	em.flush()
-	out.Stats["rule"] = "worlds drawn from one splitmix64 stream: owner-chain shape (bare pod, Deployment>ReplicaSet, Job, StatefulSet, ReplicaSet, CRD, 6 skip-top-owner chains, pod-owned pod) x 1-3 sibling pods x labels/annotations/priority classes/defaults config map; every fifth world malformed (stale uid, missing owner, two owners, forbidden kinds, user-provided annotation); after a fixed corpus (every shape with 2 pods + the witnesses of the three repaired findings: owner without labels, Workflow-owned pod, stale sub-group label, forbidden direct owner, owners carrying a pod-group-name annotation + a StatefulSet whose PodGroup the scheduler stamps with kai.scheduler/last-start-timestamp / kai.scheduler/stale-podgroup-timestamp and an administrator labels, and whose owner then loses a label and an annotation + the history world: StatefulSet with three assigned pods whose owner then gets a priority class / preemptibility / labels / topology constraint, whose PodGroup is overwritten (minMember, priorityClassName, owner references, a computed annotation, a computed label removed), whose PodGroup is deleted, and all of it in one run + an owner-less pod whose PodGroup is deleted / overwritten); 1 world in 25 gives its pods a stale sub-group label. Events: reconcile pod i; foreign update of a PodGroup = queue / markUnschedulable / schedulingBackoff / node-pool label / queue label and/or labels and annotations of other actors set, changed, removed (the scheduler's two timestamp annotations, admin keys admin.example.com/note, admin.example.com/cost-center, team-owner; 1 in 10 overwrites a key the grouper computes); an owner object loses one or two label / annotation keys after the PodGroup was created; an owner object is EDITED so that computed values change (priorityClassName, kai.scheduler/preemptibility, queue, project, user, app, tier labels; topology, note, user, top-owner-metadata annotations; mostly the top owner, 1 in 3 any owner of the chain); grouper-owned fields of the stored PodGroup are overwritten (minMember, priorityClassName, preemptibility, topology constraint, owner references dropped or replaced, a sub-group added, labels / annotations it carries overwritten or removed); the PodGroup is deleted. Each world gives a CkGroup case (all reconcile orders, a run with repeats, runs with foreign updates, owner changes, edits, overwritten / deleted PodGroups between reconciles) and a CkIdem case (repeated reconciles; after a foreign update; after keys of other actors were put on / changed on / removed from the PodGroup, where also the FIRST reconcile must be silent; after an owner lost keys; history runs: every pod assigned, then an owner edit / an overwritten PodGroup / a deleted PodGroup (one run each) and a run mixing several of them with partial reconciles and foreign updates, then every pod again in any order, twice). Every run with another event than a reconcile comes with its FRESH run: the trailing reconciles executed by the real reconciler on a second, new store holding the final owner objects and the pods as created. non-trivial = at least one reconcile succeeded; distinct by (shape, pods, defect, check, config-map state, node-pool key configured)"
+	out.Stats["rule"] = "worlds drawn from one splitmix64 stream: owner-chain shape (bare pod, Deployment>ReplicaSet, Job, StatefulSet, ReplicaSet, CRD, 6 skip-top-owner chains, pod-owned pod) x 1-3 sibling pods x labels/annotations/priority classes/defaults config map; every fifth world malformed (stale uid, missing owner, two owners, forbidden kinds, user-provided annotation); after a fixed corpus (every shape with 2 pods + the witnesses of the three repaired findings: owner without labels, Workflow-owned pod, stale sub-group label, forbidden direct owner, owners carrying a pod-group-name annotation + a StatefulSet whose PodGroup the scheduler stamps with kai.scheduler/last-start-timestamp / kai.scheduler/stale-podgroup-timestamp and an administrator labels, and whose owner then loses a label and an annotation + the history world: StatefulSet with three assigned pods whose owner then gets a priority class / preemptibility / labels / topology constraint, whose PodGroup is overwritten (minMember, priorityClassName, owner references, a computed annotation, a computed label removed), whose PodGroup is deleted, and all of it in one run + an owner-less pod whose PodGroup is deleted / overwritten); 1 world in 25 gives its pods a stale sub-group label. Events: reconcile pod i; foreign update of a PodGroup = queue / markUnschedulable / schedulingBackoff / node-pool label / queue label and/or labels and annotations of other actors set, changed, removed (the scheduler's two timestamp annotations, admin keys admin.example.com/note, admin.example.com/cost-center, team-owner; 1 in 10 overwrites a key the grouper computes); an owner object loses one or two label / annotation keys after the PodGroup was created; an owner object is EDITED so that computed values change (priorityClassName, kai.scheduler/preemptibility, queue, project, user, app, tier labels; topology, note, user, top-owner-metadata annotations; mostly the top owner, 1 in 3 any owner of the chain); grouper-owned fields of the stored PodGroup are overwritten (minMember, priorityClassName, preemptibility, topology constraint, owner references dropped or replaced, a sub-group added, labels / annotations it carries overwritten or removed); the PodGroup is deleted. Each world gives a CkGroup case (all reconcile orders, a run with repeats, runs with foreign updates, owner changes, edits, overwritten / deleted PodGroups between reconciles) and a CkIdem case (repeated reconciles; after a foreign update; after keys of other actors were put on / changed on / removed from the PodGroup, where also the FIRST reconcile must be silent; after an owner lost keys; history runs: every pod assigned, then an owner edit / an overwritten PodGroup / a deleted PodGroup (one run each) and a run mixing several of them with partial reconciles and foreign updates, then every pod again in any order, twice). Every run with another event than a reconcile comes with its FRESH run: the trailing reconciles executed by the real reconciler on a second, new store holding the final owner objects and the pods as created. non-trivial = at least one reconcile succeeded; distinct by (shape, pods, defect, check, config-map state, node-pool key configured). FAULT WORLDS (check=CkFault, one case per world; 12 deterministic worlds + every 8th world of the stream): 2-3 namespaces team-a/b/c, 2-4 workloads of 1-3 pods (at most 6 pods), the first two workloads with the SAME owner chain in two namespaces, chains drawn from foo-crd, foo>bar, replicaset>foo, skip:workflow>foo (custom kinds example.com/v1), statefulset, deployment-rs, job, widget>job, widget-crd, skip:workflow>statefulset, skip:dynamo>widget>replicaset, skip:trainjob>deployment-rs, pod-owned-by-pod; initial rule = every (namespace, kind) pair of the world refused with probability 1/4 (mostly at least one pair); runs, each on ONE pod-grouper instance and a new store: all reconcile orders (<= 3 pods) or 3 random orders under the standing rule, one run reconciling everybody twice, 1-2 runs of 4-10 random events (20% grant, 20% revoke, 20% reconcile with a one-shot fault on the n-th owner GET - 403 : 404 : 500 = 2 : 1 : 1, 1 in 8 on a kind never asked for -, 40% plain reconcile) followed by everybody twice; reference runs: for every (pod, answers) seen, one reconcile on a new instance and an empty store. Deterministic worlds: the world of seeded/C18-4/README.md (Foo team-b/train with train-0, train-1; Foo team-a/other with other-0) under the rule team-a/Foo refused with the five README orders and every order twice; the same world without rule and one-shot 403 / 404 / 500 answers; the same world with team-b/Foo refused at first, granted, revoked, granted; nine two-namespace worlds (statefulset, widget>job x2, foo>bar, skip:workflow>foo, skip:dynamo>widget>replicaset, deployment-rs, skip:trainjob>deployment-rs, foo>foo) with one kind refused in team-a, four orders and a run with grant / revoke / a one-shot 500. non-trivial fault case = at least one reconcile succeeded; distinct by (shapes, namespaces, pods)"
 	return out.Flush()
 }
